@@ -97,7 +97,7 @@ def iterator_chain(t):
             if len(alts) == 1:
                 t = P.strip(alts[0], calls=False)
                 continue
-            return t, chain
+            return t, list(reversed(chain))
         if t[0] == "call" and t[2] and t[1].rsplit("::", 1)[-1] in ITER_NAMES:
             chain.append(t[1])
             t = P.strip(t[2][0], calls=False)
